@@ -5,12 +5,14 @@ pub mod c03;
 pub mod c04;
 pub mod c05;
 pub mod c06;
+pub mod c08;
 pub mod c09;
 pub mod c10;
 pub mod c12;
 pub mod c13;
 pub mod c14;
 pub mod c15;
+pub mod c16;
 pub mod c17;
 pub mod c19;
 pub mod c20;
@@ -25,12 +27,18 @@ pub fn dispatch(ctx: &Ctx, findings: &Findings) -> Option<PropReport> {
         "C04" => c04::run(ctx, findings),
         "C05" => c05::run(ctx, findings),
         "C06" => c06::run(ctx, findings),
+        "C08" => c08::run(ctx, findings),
         "C09" => c09::run(ctx, findings),
         "C10" => c10::run(ctx, findings),
         "C12" => c12::run(ctx, findings),
         "C13" => c13::run(ctx, findings),
         "C14" => c14::run(ctx, findings),
         "C15" => c15::run(ctx, findings),
+        "C16" => c16::run(ctx, findings),
+        "C16-WORKER" => {
+            c16::worker_main();
+            std::process::exit(0)
+        }
         "C17" => c17::run(ctx, findings),
         "C19" => c19::run(ctx, findings),
         "C20" => c20::run_prop(ctx, findings),
